@@ -296,6 +296,75 @@ theorem C11_evicted_is_rebuilt (s : St) (t : Tid) (c : Choice) (hp : (s.thr t).p
   unfold step
   simp [hp, stepAt, hm, St.setThr]
 
+/-! ### "a later transaction rebuilds it" — what the model can carry
+
+The model has no storage: `createFn` (in the code `NewIndexVamana(bucket)` etc., reading the CURRENT
+transaction's bucket) is the step `nCreate`, which allocates an object.  What is proved: the access that
+finds no map entry CONSTRUCTS A NEW OBJECT — an index no object had before, hence none of the evicted ones,
+unlocked, not scrapped, not dirty, not a cold copy — keeps working on exactly that object through the whole
+new-cache branch whatever the other goroutines and evictions do in between, and the callback runs on it.
+That the constructor reads committed storage (plus the transaction's own writes) is bbolt's MVCC and the
+constructors' code — outside this model (C08 `C08_flush`/`Coherent`: an empty cache over a bucket answers
+as the bucket does). -/
+
+/-- program counters of the new-cache branch after the creation, up to the hand-over to the callback -/
+def inNewBranch : PC → Bool
+  | .nStore | .nRLock | .nObjLock | .nTxLock | .nDropOld | .nRegister | .nTxUnlock | .nMgrUnlock => true
+  | _ => false
+
+/-- `nCreate` with a constructor that succeeds: a FRESH object (index `s.nObj`: no existing object, in
+particular not the evicted one), in its initial state, created by this goroutine for this name; no other
+object changes; a constructor that fails marks the transaction failed and the callback is not run -/
+theorem C11_rebuilt_fresh (s : St) (t : Tid) (c : Choice) (hp : (s.thr t).pc = .nCreate) :
+    ((s.thr t).acc.crOk = true →
+      ((step s t c).thr t).pc = .nStore ∧ ((step s t c).thr t).use = s.nObj ∧ (step s t c).nObj = s.nObj + 1 ∧
+      (step s t c).objs s.nObj = { name := (s.thr t).acc.name, creator := t, cold := false } ∧
+      (∀ o, o ≠ s.nObj → (step s t c).objs o = s.objs o)) ∧
+    ((s.thr t).acc.crOk = false →
+      ((step s t c).thr t).pc = .nFailMgrUnlock ∧ ((step s t c).txs (s.thr t).tx).failed = true ∧
+      (step s t c).nObj = s.nObj) := by
+  unfold step
+  constructor
+  · intro hcr
+    simp [hp, stepAt, hcr, St.setThr, St.alloc, upd]
+    intro o ho; simp [ho]
+  · intro hcr
+    simp [hp, stepAt, hcr, St.setThr, St.setTx, upd]
+
+/-- through the rest of the branch the goroutine keeps that object (`use` is not reassigned), the branch
+ends at `callF`, and `callF` runs the callback (`inF`) on it -/
+theorem C11_rebuilt_kept (s : St) (t : Tid) (c : Choice) :
+    (inNewBranch (s.thr t).pc = true →
+      ((step s t c).thr t).use = (s.thr t).use ∧
+      (inNewBranch ((step s t c).thr t).pc = true ∨ ((step s t c).thr t).pc = .callF)) ∧
+    ((s.thr t).pc = .callF → ((step s t c).thr t).pc = .inF ∧ ((step s t c).thr t).use = (s.thr t).use) := by
+  unfold step
+  constructor
+  · intro h
+    cases hpc : (s.thr t).pc <;> simp [hpc, inNewBranch] at h <;>
+      simp only [stepAt] <;> (repeat' split) <;> simp [St.setThr, St.setTx, St.setObj, upd, inNewBranch]
+  · intro hpc
+    simp only [hpc, stepAt]
+    split <;> simp [St.setThr, St.setObj, upd]
+
+/-- … whatever happens in between: a step of another goroutine and an eviction leave this goroutine's
+registers (program counter, `use`) alone -/
+theorem C11_rebuilt_frame (s : St) (t t' : Tid) (c : Choice) (ns : List Name) (h : t ≠ t') :
+    (step s t' c).thr t = s.thr t ∧ (evict s ns).thr t = s.thr t :=
+  ⟨step_thr_ne s t' t c h, rfl⟩
+
+/-- … and in every reachable state the object a goroutine holds in that branch is one IT created (not a
+shared object another goroutine could have scrapped before, not a cold copy) -/
+theorem C11_rebuilt_own {s0 s : St} (hi : Init s0) (hv : s0.v = fixedV) (hr : Reachable s0 s)
+    (t : Tid) (hp : inNewBranch (s.thr t).pc = true) :
+    (s.objs (s.thr t).use).creator = t ∧ (s.objs (s.thr t).use).cold = false := by
+  have h := (all_reachable hi hv hr).inv
+  by_cases hq : newPriv (s.thr t).pc = true
+  · exact ⟨(h.pub.priv t hq).1, (h.pub.priv t hq).2.2⟩
+  · have hl : (s.thr t).pc = .nTxUnlock ∨ (s.thr t).pc = .nMgrUnlock := by
+      cases hpc : (s.thr t).pc <;> simp_all [inNewBranch, newPriv]
+    exact h.pub.late t hl
+
 /-! ## C11_failed_dropped
 
 Full statement: once `Commit` of a FAILED transaction (a callback or a constructor of it returned an
@@ -387,6 +456,79 @@ set_option maxRecDepth 100000 in
 example : ∃ s, Reachable (mkInit [(0, [w0]), (0, [{ name := 0, ro := false, cbOk := false }])] [false] (-1) true fixedV) s ∧
     ((s.thr (.w 0)).pc == .inF && (s.objs (s.thr (.w 0)).use).dirty == some 0) = true :=
   witness_of_run _ (rep 11 (.w 0) ++ rep 11 (.w 1)) (by decide)
+
+set_option maxRecDepth 100000 in
+/-- `C11_mutex_overlap`: two READERS of different transactions are inside their callbacks on the same shared
+object (the first created the cache, the second took a read lock on it) -/
+example : ∃ s, Reachable (mkInit [(0, [r0]), (1, [r0])] [false, false] (-1) true fixedV) s ∧
+    ((s.thr (.w 0)).pc == .inF && (s.thr (.w 1)).pc == .inF && (s.thr (.w 0)).use == (s.thr (.w 1)).use &&
+      (s.thr (.w 0)).tx != (s.thr (.w 1)).tx && (s.thr (.w 0)).acc.ro && (s.thr (.w 1)).acc.ro) = true :=
+  witness_of_run _ (rep 8 (.w 0) ++ rep 10 (.w 1)) (by decide)
+
+set_option maxRecDepth 100000 in
+/-- `C11_private_copy`: a reader that could not `TryRLock` (a writer of another transaction is inside its
+callback) is about to check its private cold copy -/
+example : ∃ s, Reachable (mkInit [(0, [w0]), (1, [r0])] [false, false] (-1) true fixedV) s ∧
+    ((s.thr (.w 0)).pc == .inF && useValid (s.thr (.w 1)).pc && (s.objs (s.thr (.w 1)).use).cold &&
+      (s.thr (.w 1)).use != (s.thr (.w 0)).use) = true :=
+  witness_of_run _ (rep 11 (.w 0) ++ rep 9 (.w 1)) (by decide)
+
+set_option maxRecDepth 100000 in
+/-- `C11_reader_never_blocks_on_cache`: a read-only access that cannot move — it waits for the manager mutex,
+which another reader holds while it looks the name up -/
+example : ∃ s, Reachable (mkInit [(0, [r0]), (1, [r0])] [false, false] (-1) true fixedV) s ∧
+    ((s.thr (.w 1)).acc.ro && (s.thr (.w 1)).pc != .idle && !isCommitPC (s.thr (.w 1)).pc &&
+      !stepCond s (.w 1) && mgrAcq (s.thr (.w 1)).pc) = true :=
+  witness_of_run _ (rep 2 (.w 0) ++ rep 1 (.w 1)) (by decide)
+
+set_option maxRecDepth 100000 in
+/-- `C11_replaced_dropped`: a transaction writes a name, the entry is evicted, it writes the name again: the
+object it held is marked `dropped` (scrapped, unlocked, out of the map) when the new one is registered -/
+example : ∃ s, Reachable (mkInit [(0, [w0, w0])] [false] (-1) true fixedV) s ∧
+    ((s.objs 0).dropped == some 0 && (s.objs 0).scrapped && (s.objs 0).writer.isNone && s.map 0 == some 1) = true :=
+  witness_of_run _ (rep 13 (.w 0) ++ [Lab.e [0]] ++ rep 8 (.w 0)) (by decide)
+
+set_option maxRecDepth 100000 in
+/-- `C11_evict_harmless` / `C11_rebuilt_*`: the entry of a cache is evicted WHILE a writer is inside its
+callback on it; the next reader finds no entry, constructs a new object (index 1) and runs its callback on
+that one, while the writer still works on object 0 -/
+example : ∃ s, Reachable (mkInit [(0, [w0]), (1, [r0])] [false, false] (-1) true fixedV) s ∧
+    ((s.thr (.w 0)).pc == .inF && (s.thr (.w 0)).use == 0 && (s.thr (.w 1)).pc == .inF && (s.thr (.w 1)).use == 1 &&
+      (s.objs 1).creator == .w 1 && !(s.objs 1).cold && !(s.objs 1).scrapped && s.map 0 == some 1) = true :=
+  witness_of_run _ (rep 11 (.w 0) ++ [Lab.e [0]] ++ rep 8 (.w 1)) (by decide)
+
+/-! ## the hypothesis `dbLock` of `C11_progress` is forced
+
+Without bbolt's single-writer discipline (`dbLock = false`: two transactions inside their writing phases at
+the same time) the model of the CURRENT source deadlocks: locks are held until Commit, so two writers taking
+two caches in opposite order block each other for ever (AB/BA).  In production the enclosing `db.Write`
+serialises writers; a `cache.Transaction` used outside a bbolt write transaction has no such protection. -/
+
+/-- two concurrent writers, caches 0 and 1 in opposite order, no database lock -/
+def wlABBA (v : Variant) : St := mkInit [(0, [w0, w1]), (1, [w1, w0])] [false, false] (-1) false v
+def schedABBA : List Lab := rep 13 (.w 0) ++ rep 19 (.w 1) ++ rep 6 (.w 0)
+
+set_option maxRecDepth 100000 in
+/-- the NEGATION of `C11_progress` without `hdb`: every other hypothesis holds (`Init`, the repaired model,
+reachability) and the state is deadlocked — both writers wait for the other's cache lock (`xObjLock`), both
+committers wait for their writers -/
+theorem C11_deadlock_witness_without_dblock :
+    Init (wlABBA fixedV) ∧ (wlABBA fixedV).v = fixedV ∧ (wlABBA fixedV).dbLock = false ∧
+    ∃ s, Reachable (wlABBA fixedV) s ∧ Deadlocked s ∧
+      (s.thr (.w 0)).pc = .xObjLock ∧ (s.thr (.w 1)).pc = .xObjLock := by
+  refine ⟨mkInit_Init _ _ _ _ _ (by decide), rfl, rfl, ?_⟩
+  obtain ⟨s, hr, hd⟩ := witness_of_run
+    (P := fun s => s.deadlockedB && (s.thr (.w 0)).pc == .xObjLock && (s.thr (.w 1)).pc == .xObjLock)
+    (wlABBA fixedV) schedABBA (by decide)
+  simp only [Bool.and_eq_true, beq_iff_eq] at hd
+  exact ⟨s, hr, deadlocked_of_B hd.1.1, hd.1.2, hd.2⟩
+
+set_option maxRecDepth 100000 in
+/-- … and with the database lock the same workload cannot even start its second writer: the hypothesis is
+what separates the two (the first writing access of transaction 1 is not enabled while transaction 0 writes) -/
+example : ∃ s, Reachable (mkInit [(0, [w0, w1]), (1, [w1, w0])] [false, false] (-1) true fixedV) s ∧
+    ((s.thr (.w 0)).pc == .inF && !enabled s (.w 1) && enabled s (.w 0)) = true :=
+  witness_of_run _ (rep 11 (.w 0)) (by decide)
 
 /-! ## witnesses: the model of the PINNED code (and of the partial repairs) violates the property
 
